@@ -318,6 +318,104 @@ def check_metadata(chk, prog, env, model):
     chk.rule('C08.metadata', 'key_ops / use string maps (RFC 7517), oct bits = 8 x length, oct always private', n, bad, floor=15)
 
 
+def check_key_alg_attribute(chk, prog, env, model, rulename='C08.key-alg'):
+    """jwk_process_values: the key's own "alg" member becomes item->alg = the enum of exactly that RFC 7518 name; an unknown string is
+    kept as INVAL (so that the admission table refuses it), it is never turned into "no algorithm"; absent -> none; non-string -> bad item"""
+    from props.common import ALGS
+    unit = c07.UNIT
+    prog.func(unit, 'jwk_process_values')
+    u = prog.unit(unit)
+    E = u.enums
+    n = 0
+    bad = 0
+    cases = [(nm, env.alg_val[nm]) for nm in ALGS] + [(x, env.INVAL) for x in ('A256KW', 'RSA-OAEP', 'hs256', 'HS256 ', 'HS25', 'HS2566', '', 'NONE')]
+    for text, want in cases + [(None, env.alg_val['none'])]:
+        n += 1
+
+        def h_get(it, st, args, node, text=text):
+            key = args[1].text() if isinstance(args[1], Str) else None
+            if key == 'alg' and text is not None:
+                o = ('obj', 'jalg')
+                st.mem[(o, 'type')] = Int(2)
+                return [(st, Ref(o))]
+            return [(st, NULL)]
+
+        def h_sval(it, st, args, node, text=text):
+            return [(st, Str((text or '') + '\0'))]
+        it = Interp(prog, unit, model=model, hooks={'json_object_get': h_get, 'json_string_value': h_sval})
+        st, item, jwk = c07.item_state(env)
+        r = it.run('jwk_process_values', [Ref(jwk), Ref(item)], st)
+        for s_, rv in r:
+            got = it.load(s_, item, 'alg')
+            if flag_of(s_, item) == 1:
+                continue        # flagged bad: the key is unusable, which is a refusal
+            if not (isinstance(got, Int) and got.v == want):
+                bad += 1
+                chk.add(Finding(rulename, unit, 'jwk_process_values', 'alg[%s]' % (text if text is not None else '<absent>'),
+                                'a key whose "alg" member is %r gets item->alg = %r, expected %s'
+                                % (text, got, 'JWT_ALG_INVAL (unknown names must stay refused)' if want == env.INVAL else want)))
+    chk.rule(rulename, 'key "alg" member -> item->alg: the 15 RFC 7518 names and none map to their enum, unknown or near-miss strings to INVAL, '
+                       'absent to none', n, bad, floor=20)
+
+
+def check_rsa_pss_type(chk, prog, env, model, rulename='C08.rsa-pss-type'):
+    """entered at jwk_process_one (so that the order of importer and metadata parsing is the real one): an RSA JWK is imported as an
+    RSA-PSS key exactly when its alg member is PS256/PS384/PS512"""
+    unit = c07.UNIT
+    prog.func(unit, 'jwk_process_one')
+    n = 0
+    bad = 0
+    for text, want in (('PS256', 'RSA-PSS'), ('PS384', 'RSA-PSS'), ('PS512', 'RSA-PSS'), ('RS256', 'RSA'), ('RS512', 'RSA'), (None, 'RSA')):
+        members = {'kty': 'RSA', 'n': 'AQAB', 'e': 'AQAB'}
+        if text is not None:
+            members['alg'] = text
+        names = []
+
+        def h_get(it, st, args, node, members=members):
+            key = args[1].text() if isinstance(args[1], Str) else None
+            if key in members:
+                o = ('obj', 'm_' + key)
+                st.mem[(o, 'type')] = Int(2)
+                return [(st, Ref(o))]
+            return [(st, NULL)]
+
+        def h_sval(it, st, args, node, members=members):
+            v = args[0]
+            if isinstance(v, Ref) and v.loc[1].startswith('m_'):
+                return [(st, Str(members[v.loc[1][2:]] + '\0'))]
+            return [(st, NULL)]
+
+        class R(Rule):
+            alloc_may_fail = False
+            lib_alloc_may_fail = False
+
+            def keep_event(self, ev):
+                return False
+
+            def on_call(self, it, st, name, args, node):
+                if name == 'EVP_PKEY_CTX_new_from_name' and len(args) > 1 and isinstance(args[1], Str):
+                    names.append(args[1].text().split('\0')[0])
+        hooks = H.std_hooks(env, extra={'json_object_get': h_get, 'json_string_value': h_sval})
+        it = Interp(prog, unit, model=model, rule=R(), hooks=hooks, budget=1500000)
+        st = State()
+        H.bind_provider(st, 'openssl')
+        js = ('obj', 'jwkset')
+        st.mem[(js, 'error')] = Int(0)
+        st.mem[(js, 'error_msg#')] = 'empty'
+        jwk = ('obj', 'jwk_in')
+        st.mem[(jwk, 'type')] = Int(0)
+        it.run('jwk_process_one', [Ref(js), Ref(jwk)], st)
+        n += 1
+        got = sorted(set(names))
+        if not got:
+            raise AnalysisBroken('%s: no key context is created for an RSA JWK with alg %r' % (rulename, text))
+        if got != [want]:
+            bad += 1
+            chk.add(Finding(rulename, 'libjwt/openssl/jwk-parse.c', 'openssl_process_rsa', 'type[%s]' % (text or '<absent>'),
+                            'an RSA JWK with alg %r is imported with key type %s, expected %s' % (text, got, want)))
+    chk.rule(rulename, 'RSA JWK -> key type: RSA-PSS exactly for alg PS256/PS384/PS512 (entered at jwk_process_one)', n, bad, floor=6)
+
+
 def check_bits_provenance(chk, prog, env, model, rulename='C08.bits-provenance'):
     """at every successful exit of every asymmetric importer, item->bits holds what EVP_PKEY_get_size_t_param(pkey, "bits", ..)
     wrote -- not a recomputed, rounded or overwritten number (the key-size floor of C09 compares exactly this field)"""
@@ -362,6 +460,8 @@ def run(chk, prog, tier):
     check_exporter_inverse(chk, prog)
     chk.guard('metadata', check_metadata, chk, prog, env, model)
     chk.guard('bits provenance', check_bits_provenance, chk, prog, env, model)
+    chk.guard('key alg attribute', check_key_alg_attribute, chk, prog, env, model)
+    chk.guard('rsa-pss type', check_rsa_pss_type, chk, prog, env, model)
     chk.assumptions += ['equality of key material and the PEM round trip are numeric facts inside OpenSSL and NOT decided']
     return chk.finish(
         'Table and sibling agreement.',
